@@ -33,7 +33,7 @@ def describe(tier):
             "occur; only literals that ARE a bare operator are excluded, as in the statement) x quote in {',\"}. Concatenation: every chain of 2 literals "
             f"(contents <= {L2}), 3 literals (contents <= 1) and 4 literals (contents from a 4-menu) x every separator spelling {[s.decode() for s in SEPS]} x 4 spacings "
             "(none, spaces, VB line continuation, tab) x 3 embeddings; padding runs of 100..5000 blanks / underscores / tabs / continuations around every operator spelling. Reversal: reverse(/reversed(/StrReverse( x inner spacing x every literal. "
-            "Replacement: 4 dialects (the JS regex dialect with every flag set of {'', g, i, gi, m, gim}) x (x, a, b) over the same literal set with non-empty a (overlapping occurrences such as aaa/aa, b containing a, "
+            "JS regex patterns that contain quote characters (the pattern is not a literal). Replacement: 4 dialects (the JS regex dialect with every flag set of {'', g, i, gi, m, gim}) x (x, a, b) over the same literal set with non-empty a (overlapping occurrences such as aaa/aa, b containing a, "
             "empty b) x spacing. Each expression is given to the dialect's decoder; the COMPLETE result list must equal the single expected node "
             "(type, label, value from Python semantics on the unquoted contents: join / [::-1] / bytes.replace, span = whole expression). Every chain "
             "is also scanned with the shipped registry and the expected node must be present at the expression's absolute span. "
@@ -53,7 +53,7 @@ def lit(c, q):
 
 def plan(tier, seed):
     units = [("cat2", tier, i) for i in range(len(CH) + 1)]
-    units += [("cat3", tier), ("cat4", tier), ("catlong", tier), ("rev", tier)]
+    units += [("cat3", tier), ("cat4", tier), ("catlong", tier), ("jsquoted", tier), ("rev", tier)]
     units += [("repl", tier, d, i) for d in range(4) for i in range(len(CH) + 1)]
     return units
 
@@ -201,6 +201,25 @@ def run_unit(unit, rec):
                             expect_one(rec, "C15.concat", concat.find_concat, data, ("string", b"".join(cs), "concatenation", 4, 4 + len(expr)),
                                        {"kind": "cat", "data": data, "contents": list(cs), "start": 4, "end": 4 + len(expr)}, scan=False)
         rec.sample({"family": "concat-long-padding", "expressions": n, "paddings": [100, 1023, 1024, 1025, 1100, 5000]})
+    elif kind == "jsquoted":
+        n = 0
+        pats = [b'"', b"'", b'"-"', b"'-'", b'""', b"''", b'"a"', b"a'", b"'a", b'"a', b'a"b']
+        for x in (b"a-b-c", b"abc", b"a'b", b"", b"-", b"aXa"):
+            for a in pats:
+                for b in (b"+", b"", b"a"):
+                    for q in (b'"', b"'"):
+                        if q in x:
+                            continue
+                        for flags in (b"g", b""):
+                            expr, fn, typ, lab = repl_expr(3, x, a, b, q, SPACING[0], flags)
+                            for pre, suf in EMBED[:2]:
+                                data = pre + expr + suf
+                                n += 1
+                                exp = (typ, x.replace(a, b), lab, len(pre), len(pre) + len(expr))
+                                rec.mark("nontrivial", data, True)
+                                expect_one(rec, "C15.replace", fn, data, exp, {"kind": "repl", "dialect": 3, "data": data, "x": x, "a": a, "b": b, "flags": flags, "spell": 0,
+                                                                              "start": len(pre), "end": len(pre) + len(expr), "q": q}, scan=False)
+        rec.sample({"family": "js-regex-quoted-patterns", "expressions": n})
     elif kind == "cat4":
         menu = [b"a", b"", b"+b", b" "]
         n = run_cat(rec, itertools.product(menu, repeat=4), lambda k: [(b'"',) * k, (b"'",) * k, (b'"', b"'") * (k // 2)], tier)
@@ -259,5 +278,5 @@ def replay(w, rec):
             if name == w["fn"]:
                 expect_one(rec, "C15.reverse", fn, data, (typ, w["content"][::-1], lab, w["start"], w["end"]), w, scan=True)
     elif k == "repl":
-        _, fn, typ, lab = repl_expr(w["dialect"], w["x"], w["a"], w["b"], b'"', SPACING[0], w.get("flags", b"g"), SPELLINGS[w.get("spell", 0)])
+        _, fn, typ, lab = repl_expr(w["dialect"], w["x"], w["a"], w["b"], w.get("q", b'"'), SPACING[0], w.get("flags", b"g"), SPELLINGS[w.get("spell", 0)])
         expect_one(rec, "C15.replace", fn, data, (typ, w["x"].replace(w["a"], w["b"]), lab, w["start"], w["end"]), w)
